@@ -143,3 +143,17 @@ Definition oconfig_ok (o : oconfig) : bool :=
   forallb col_ok cols
   && forallb (fun cells => (1 <=? Z.of_nat (List.length cells)) && (Z.of_nat (List.length cells) <=? n) && hcells_ok n 0 cells) (o_heads o)
   && o_head_texts_sepfree o.
+
+(* ------------------------------------------------------------------ *)
+(* result files across runs (path.go DefaultFoutGenerator, session.OpenResultFile(path, false)):
+   the V / Y / C files are opened with O_CREATE|O_TRUNC|O_WRONLY — whatever an earlier run into the
+   same result folder left in the file is discarded, then the header lines and records of this run
+   are written.  A file = the list of its lines. *)
+Definition open_result {A : Type} (append : bool) (old : list A) : list A := if append then old else [].
+Definition write_run {A : Type} (old lines : list A) : list A := open_result false old ++ lines.
+Fixpoint after_runs {A : Type} (file : list A) (runs : list (list A)) : list A :=
+  match runs with [] => file | r :: rest => after_runs (write_run file r) rest end.
+
+(* what a writer WITHOUT truncation leaves (O_CREATE|O_WRONLY, writing from offset 0), at the
+   granularity of equally long lines: the new lines, then the old tail *)
+Definition write_run_keep {A : Type} (old lines : list A) : list A := lines ++ skipn (List.length lines) old.
